@@ -552,6 +552,15 @@ ROUND5 = {
            'the two questions.',
 }
 
+# sixth round
+ROUND6 = {
+    'C20': ' Part grow: updates add modules to existing or new task packages '
+           'and the pipeline loads again without scan.reset (the registry of '
+           'per-task factories survives, as in FSM._pipeline); the timer '
+           'table must equal the declared events after every load, and '
+           'Factories.events() must be a function of the classes added.',
+}
+
 NOT_YET = 'check not built yet in this session (planned, see DESIGN.md section 4)'
 
 
@@ -577,7 +586,8 @@ def main():
                 'level_claimed': {
                     'category': cat,
                     'text': (text + EXTRA.get(pid, '') + ROUND3.get(pid, '')
-                             + ROUND4.get(pid, '') + ROUND5.get(pid, '')),
+                             + ROUND4.get(pid, '') + ROUND5.get(pid, '')
+                             + ROUND6.get(pid, '')),
                     'design_ref': f'DESIGN.md section 4, {pid}',
                 },
                 'level_note': note,
